@@ -36,7 +36,7 @@ def _kap(*mats):
 
 # ------------------------------------------------------------------------------------------ measures / densities
 _MOPS = ["evaluate_ln", "log_integral", "integrate_x", "integrate_xx", "integrate_lin", "integrate_quad_inner", "integrate_quartic",
-         "integrate_xbxx", "integrate_cubic", "get_density", "slice_slice", "log_factor"]
+         "integrate_xbxx", "integrate_xAxx", "integrate_cubic", "integrate_cubic_outer", "integrate_quartic_inner", "get_density", "slice_slice", "log_factor"]
 _POPS = ["marginal", "condition_on", "linear_sum", "entropy", "kl", "condition_on_explicit"]
 
 
@@ -122,6 +122,15 @@ def _run_m(case):
     elif op == "integrate_xbxx":
         fa = lambda: m.integrate("xb'xx'", b_vec=J(bv))
         fb = lambda: ms.integrate("xb'xx'", b_vec=J(bv[ii]))
+    elif op == "integrate_xAxx":
+        fa = lambda: m.integrate("x(A'x + a)x'", A_mat=J(bv[:, None, :]), a_vec=J(a[:, :1]))
+        fb = lambda: ms.integrate("x(A'x + a)x'", A_mat=J(bv[ii][:, None, :]), a_vec=J(a[ii][:, :1]))
+    elif op == "integrate_cubic_outer":
+        fa = lambda: m.integrate("(Ax+a)'(Bx+b)(Cx+c)'", A_mat=J(A), a_vec=J(a), B_mat=J(A), C_mat=J(B))
+        fb = lambda: ms.integrate("(Ax+a)'(Bx+b)(Cx+c)'", A_mat=J(A[ii]), a_vec=J(a[ii]), B_mat=J(A[ii]), C_mat=J(B))
+    elif op == "integrate_quartic_inner":
+        fa = lambda: m.integrate("(Ax+a)'(Bx+b)(Cx+c)'(Dx+d)", A_mat=J(A), a_vec=J(a), B_mat=J(A[:, ::-1]), C_mat=J(B), D_mat=J(B[::-1]))
+        fb = lambda: ms.integrate("(Ax+a)'(Bx+b)(Cx+c)'(Dx+d)", A_mat=J(A[ii]), a_vec=J(a[ii]), B_mat=J(A[ii][:, ::-1]), C_mat=J(B), D_mat=J(B[::-1]))
     elif op == "integrate_cubic":
         fa = lambda: m.integrate("(Ax+a)(Bx+b)'(Cx+c)", A_mat=J(A), a_vec=J(a), B_mat=J(B), C_mat=J(B))
         fb = lambda: ms.integrate("(Ax+a)(Bx+b)'(Cx+c)", A_mat=J(A[ii]), a_vec=J(a[ii]), B_mat=J(B), C_mat=J(B))
